@@ -7,7 +7,7 @@ compared with the attributes of the really parsed MSM message.
 import random
 
 from vf import bits as B
-from vf import refmodel, refmsm
+from vf import refmodel, refmsm, streams
 
 LEVEL = "exploration"
 RULE = (
@@ -25,7 +25,7 @@ ASSUMPTIONS = [
     "frequency-band labels (option 2) are not pinned: only N/A for undefined IDs is required there",
 ]
 GATES = ["messages_checked", "sat_bit_alone", "sig_bit_alone", "reserved_sig_checked", "reserved_sat_checked",
-         "opt1", "opt2", "cells64"]
+         "opt1", "opt2", "cells64", "same_masks_across_constellations"]
 
 
 def check(ctx, identity, satmask, sigmask, cellmask, opt, seedtag):
@@ -38,10 +38,12 @@ def check(ctx, identity, satmask, sigmask, cellmask, opt, seedtag):
     enc = refmodel.build(identity, rng, "random", "small", "random",
                          force={"DF394": satmask, "DF395": sigmask, "DF396": cellmask}, maxcells=4096)
     sats, sigs, cells = refmsm.scan_masks(satmask, sigmask, enc.meta["cellmask"])
+    rep = streams.pick_rep(rng, 0.7)  # the same payload as bytes / bytearray / subclass / memoryview
+    ctx.hit("rep:" + rep)
     try:
-        m = RTCMMessage(payload=enc.payload, labelmsm=opt)
+        m = RTCMMessage(payload=streams.as_rep(rep, enc.payload), labelmsm=opt)
     except Exception as e:
-        ctx.violation("msm-parse-raised", f"{identity} sats={sats[:6]}.. sigs={sigs} opt={opt}: "
+        ctx.violation("msm-parse-raised", f"{identity} sats={sats[:6]}.. sigs={sigs} opt={opt} (payload as {rep}): "
                       f"{type(e).__name__}: {str(e)[:160]}", params)
         return
     ctx.hit("messages_checked")
@@ -145,6 +147,25 @@ def run(ctx):
             w = nsat * nsig
             cm = rng.choice((T(w), T(w), T(w) & T(w), full(w), 0, 1, 1 << (w - 1)))
             check(ctx, identity, sat, sig, cm, rng.choice((1, 2)), T(40))
+        # the SAME masks in every constellation, one after the other (and the transposed shape with the same cell-mask
+        # value): labels depend on the constellation and on the shape, not only on the mask values
+        for _ in range(60 if ctx.quick else 1200):
+            nsat = rng.randint(1, 8)
+            nsig = rng.randint(1, 8)
+            sat = sum(1 << b for b in rng.sample(range(64), nsat))
+            sig = sum(1 << b for b in rng.sample(range(32), nsig))
+            cm = rng.choice((T(nsat * nsig), full(nsat * nsig)))
+            lvl = identity[3]
+            order = [g + lvl for g in refmsm.CONSTELLATION]
+            rng.shuffle(order)
+            opt = rng.choice((1, 2))
+            for other in order[: 3 if ctx.quick else 7] + [identity]:
+                if other in ids:
+                    check(ctx, other, sat, sig, cm, opt, T(40))
+            sat2 = sum(1 << b for b in rng.sample(range(64), nsig))
+            sig2 = sum(1 << b for b in rng.sample(range(32), nsat))
+            check(ctx, identity, sat2, sig2, cm, opt, T(40))
+            ctx.hit("same_masks_across_constellations")
         # wider than 64 cells (engine still has to scan correctly; counts only matter) - a few
         for _ in range(2 if ctx.quick else 40):
             nsat = rng.randint(9, 40)
